@@ -255,14 +255,14 @@ def faults(desc):
     yield 'state label not matching \\w+ (transition only)', text(d, t + ['{{{}}} {} {}'.format(Q[0], Q[0], lab or 'a')])
     if kind == 'pda':
         e = desc.meta['eps']
-        for bad in ('a,x', 'ab,xx', 'a{0}{0}'.format(e), 'a,{0}{0}{0}'.format(e), ',{0}{0}'.format(e)):
+        for bad in ('a,x', 'ab,xx', 'a{0}{0}'.format(e), 'a,{0}{0}{0}'.format(e), ',{0}{0}'.format(e), 'ab,R', '{0}{0},L'.format(e), 'abxx'):
             yield 'label of the wrong shape', text(d, t + ['{} {} {}'.format(Q[0], Q[0], bad)])
         yield 'symbol outside input_symbols', text(d, t + ['{} {} z,{}{}'.format(Q[0], Q[0], e, e)])
         yield 'symbol outside stack_symbols', text(d, t + ['{} {} {},{}z'.format(Q[0], Q[0], e, e)])
         yield 'symbol outside stack_symbols', text(d, t + ['{} {} {},z{}'.format(Q[0], Q[0], e, e)])
     if kind == 'tm':
         b = desc.meta['blank']
-        for bad in ('a,R', '{0}{0}R'.format(b), '{0}{0},X'.format(b), '{0}{0},'.format(b), '{0}{0}{0},L'.format(b), '{0}{0},LR'.format(b)):
+        for bad in ('a,R', '{0}{0}R'.format(b), '{0}{0},X'.format(b), '{0}{0},'.format(b), '{0}{0}{0},L'.format(b), '{0}{0},LR'.format(b), 'a,{0}{0}'.format(b), '{0},{0}{0}'.format(b), 'abxR', 'abR'):
             yield 'label of the wrong shape', text(d, t + ['{} {} {}'.format(Q[0], Q[0], bad)])
         yield 'symbol outside tape_symbols', text(d, t + ['{} {} z{},R'.format(Q[0], Q[0], b)])
         yield 'symbol outside tape_symbols', text(d, t + ['{} {} {}z,L'.format(Q[0], Q[0], b)])
@@ -291,6 +291,30 @@ def faults(desc):
             # declared but unused symbol makes the automaton not total
             yield 'missing (p,a) for a declared symbol', text([(l + ' z' if l.startswith('input_symbols') else l) for l in d], t)
             yield 'state without outgoing transitions', text([(l + ' zz9' if l.startswith('states') else l) for l in d], t)
+
+
+def prime_other_parsers(acc, kind, token):
+    """Hands minimal descriptions that use `token` as their only transition label to the parsers of the other kinds (whatever they
+    answer is not judged here - each kind is judged on its own descriptions); returns the kinds that accepted it."""
+    took = []
+    for k2 in ('nfa', 'dfa', 'pda', 'tm'):
+        if k2 == kind:
+            continue
+        p2, _ = parser_of(k2)
+        t2 = 'initial q0\naccept qa\nreject qr\nq0 qa {}'.format(token) if k2 == 'tm' else 'initial q0\nfinal q0\nq0 q0 {}'.format(token)
+        try:
+            core.IN_LIB = True
+            p2(t2)
+            took.append(k2)
+        except core.WallClock:
+            raise
+        except Exception:
+            pass
+        finally:
+            core.IN_LIB = False
+        acc.c['priming_calls_of_other_parsers'] += 1
+    acc.c['faulty_labels_first_accepted_by_another_parser'] += 1 if took else 0
+    return took
 
 
 def guarded(desc):
@@ -370,6 +394,9 @@ def check_desc(acc, desc, rp, inst0, layout_stride=1, layout_offset=0):
         acc.transitions += 1
         acc.c['faulty_texts'] += 1
         core.CALLS += 1
+        if fclass == 'label of the wrong shape':
+            # history: the same token is a well-formed label (or symbol) of ANOTHER kind of description; the other parsers see it first
+            inst['parsed_before'] = prime_other_parsers(acc, desc.kind, text.split('\n')[-1].split()[-1])
         try:
             core.IN_LIB = True
             X = parse(text)
